@@ -271,6 +271,25 @@ def run(chk):
               and [p.get("n") for p in s["place"]["p"] if isinstance(p, dict) and "f" in p] == ["root", "min_level"]]
         if len(wd) != 1:
             return False, "default_min_level must set the root's level", [], d.span
+        # nodes created on the way to the registered path carry no level of their own (an intermediate module is not a rule)
+        for bb, j, s2 in b.statements(normal_only=True):
+            rv = s2.get("rv") if s2["k"] == "assign" else None
+            if rv and rv["k"] == "agg" and (rv.get("adt") or "").endswith("PathNode"):
+                f = dict(zip(rv.get("fields") or [], [b.origin(o) for o in rv["ops"]]))
+                ml = f.get("min_level")
+                if ml is None or not (ml[0] == "agg" and ml[1].get("variant") == "None"):
+                    return False, "a node created for an intermediate segment starts with level %s, not None" % (o_str(ml) if ml else "?"), [], "%s:%s" % (b.file, s2.get("line"))
+        # both stores are unconditional overwrites (a repeated registration replaces the earlier one, whichever level was there) of
+        # exactly the level given
+        if not b.must_pass([ws[0][0]]):
+            return False, ("min_level sets the node's level only on some paths (e.g. only when none was registered): a repeated registration "
+                           "would keep the first level instead of replacing it"), [], b.span
+        wbb = [bb for bb, j, s2 in d.statements(normal_only=True) if s2 is wd[0]][0]
+        od = d.origin(wd[0]["rv"]["op"]) if wd[0]["rv"]["k"] == "use" else ("unknown",)
+        if not d.must_pass([wbb]) or not (od[0] == "agg" and od[1].get("variant") == "Some" and common.has_root(od, "param", 2)) or \
+                any(c.callee.get("name") in ("take", "or", "or_else", "get_or_insert", "get_or_insert_with", "replace", "xor", "filter") for c in d.calls(normal_only=True)):
+            return False, ("default_min_level does not simply overwrite the root's level with the one given (it stores %s): repeating the call "
+                           "must replace the earlier default" % o_str(od)[:100]), [], d.span
         return True, "", [b.span, d.span]
     chk.ob("C17.R5:registration", "registering a path sets (overwrites) the level of exactly that node; the default sets the root", registration)
 
